@@ -321,6 +321,14 @@ func (p *textParser) slotAlternatives(r *TextRow, i, n int) []string {
 	if pad < 0 {
 		pad = 0
 	}
+	if p.m.Aligns == nil && pad > 64 {
+		// very wide column: only the canonical splits are tried (left, right, centre either way)
+		var alts []string
+		for _, l := range []int{0, pad, pad / 2, pad - pad/2} {
+			alts = append(alts, strings.Repeat(" ", l)+text+strings.Repeat(" ", pad-l))
+		}
+		return alts
+	}
 	if p.m.Aligns == nil {
 		alts := make([]string, 0, pad+1)
 		for l := 0; l <= pad; l++ {
